@@ -232,7 +232,7 @@ func chainScenarios(yield func(any)) {
 		}
 		return ents
 	}
-	triggers := []string{"edit-subject", "delete-pem", "strip-key", "truncate", "strip-cert", "touch", "copy-pem", "note+edit"}
+	triggers := []string{"edit-subject", "delete-pem", "strip-key", "truncate", "strip-cert", "touch", "copy-pem", "note+edit", "edit+delete-child"}
 	for tier := 0; tier < 3; tier++ {
 		for _, trig := range triggers {
 			for w := -1; w < 4; w++ {
@@ -276,6 +276,15 @@ func chainScenarios(yield func(any)) {
 						steps = append(steps, Step{Op: "appendNote", Path: pemPath(e.path)}, Step{Op: "write", File: &f})
 					case "copy-pem":
 						steps = append(steps, Step{Op: "copyPem", Path: pemPath(e.path), From: pemPath(ents[3].path)})
+					case "edit+delete-child":
+						// the issuer is replaced and one of its subscribers is created in the same run
+						issuer, child := []int{0, 1, 0}[tier], []int{1, 2, 3}[tier]
+						ie := ents[issuer]
+						c := cloneJ(ie.cfg)
+						c["subject"] = c["subject"].(string) + ",OU=Reissued"
+						ie.cfg = c
+						f := cfgFile(ie)
+						steps = append(steps, Step{Op: "write", File: &f}, Step{Op: "delete", Path: pemPath(ents[child].path)})
 					}
 					st := Step{Op: "run", Strat: choose([]int{defaultStrat, defaultStrat, 13, 4})}
 					if w >= 0 {
